@@ -274,6 +274,61 @@ def gen_ops(rng, tier, maxlen=4):
     return ops
 
 
+BAD_KINDS = ["n0", "nneg", "nshort", "nlong", "nfloat", "nstr", "method", "quat3", "quat0", "seq", "mat2",
+             "rotvec4", "alignmissing", "noargs", "eulerlen"]
+
+
+def gen_bad(rng):
+    """a rotate() call that must be refused; `base` is a perfectly valid rotation (often a quarter turn, so
+    that a refused call that stays composed is conspicuous)"""
+    why = rng.choice(BAD_KINDS)
+    if rng.random() < 0.5:
+        base = dict(op="rot", method="from_euler", a=dict(seq=rng.choice("xyz"), angles=g.qs(90.0), degrees=True))
+    else:
+        base = gen_rot(rng)
+    return dict(op="bad", why=why, base=base)
+
+
+def call_bad(rot, o):
+    why, base = o["why"], o["base"]
+    if why in ("n0", "nneg", "nshort", "nlong", "nfloat", "nstr"):
+        n = {"n0": (0, 1, 1), "nneg": (-1, 2, 2), "nshort": (2, 2), "nlong": (2, 2, 2, 2), "nfloat": (1.5, 2, 2),
+             "nstr": "abc"}[why]
+        b = dict(base, n=None)
+        m, a = b["method"], b["a"]
+        # same call as call_rotate, with the unsuitable n
+        class _R:  # route call_rotate's rot.rotate(...) through a wrapper that swaps n
+            def rotate(self, *args, **kw):
+                kw["n"] = n
+                return rot.rotate(*args, **kw)
+        return call_rotate(_R(), b, True)
+    if why == "method":
+        return rot.rotate("from_davenport_x", [0, 0, 0.1])
+    if why == "quat3":
+        return rot.rotate("from_quat", [0, 0, 1])
+    if why == "quat0":
+        return rot.rotate("from_quat", [0, 0, 0, 0])
+    if why == "seq":
+        return rot.rotate("from_euler", "q", 0.3)
+    if why == "mat2":
+        return rot.rotate("from_matrix", [[1, 0], [0, 1]])
+    if why == "rotvec4":
+        return rot.rotate("from_rotvec", [0, 0, 1, 1])
+    if why == "alignmissing":
+        return rot.rotate("align_vector", initial=(1, 0, 0))
+    if why == "noargs":
+        return rot.rotate("from_euler")
+    if why == "eulerlen":
+        return rot.rotate("from_euler", "xy", [0.1])
+    raise ValueError(why)
+
+
+def insert_bad(rng, ops, k):
+    for _ in range(k):
+        ops.insert(rng.randint(0, len(ops)), gen_bad(rng))
+    return ops
+
+
 def rnd_n(rng, tier):
     m = 4 if tier == "quick" else 5
     return [rng.randint(1, m) for _ in range(3)]
@@ -291,6 +346,8 @@ def generate(rng, tier):
                 o["n"] = rnd_n(rng, tier)
         if rng.random() < 0.12:
             ops.append(dict(op="clear"))
+        if rng.random() < 0.15:
+            insert_bad(rng, ops, 1)
         cases.append(dict(kind="rot", field=f, ops=ops, style=rng.random() < 0.5))
     # (b) one case per input method with each kind of data, default n
     for m in ["from_quat", "from_matrix", "from_rotvec", "from_mrp", "from_euler", "align_vector"]:
@@ -352,6 +409,19 @@ def generate(rng, tier):
         f["dtype"] = "complex128"
         f["imag"] = [g.qs(F(rng.randint(-20, 20), 4)) for _ in f["vals"]]
         cases.append(dict(kind="complex", field=f, ops=[gen_rot(rng, "from_rotvec")], style=True))
+    # (k) histories that interleave REFUSED rotate() calls with accepted ones and clear_rotation
+    for _ in range(30 if quick else 250):
+        f = gen_field(rng, tier)
+        ops = gen_ops(rng, tier, maxlen=3)
+        if rng.random() < 0.3:
+            ops.insert(rng.randint(0, len(ops)), dict(op="clear"))
+        insert_bad(rng, ops, rng.choice([1, 1, 2, 3]))
+        if rng.random() < 0.3:
+            ops.append(dict(op="clear"))
+        for o in ops:
+            if o["op"] == "rot" and rng.random() < 0.3:
+                o["n"] = rnd_n(rng, tier)
+        cases.append(dict(kind="refusedhist", field=f, ops=ops, style=rng.random() < 0.5))
     # (f) refusals
     for _ in range(60 if quick else 300):
         ndim = rng.choice([1, 2, 3, 3, 3, 3, 4])
@@ -428,6 +498,7 @@ def run_rot(c):
     mats = []
     since_clear = 0
     last_n = None
+    nbad = 0
     try:
         for o in c["ops"]:
             if o["op"] == "clear":
@@ -435,6 +506,18 @@ def run_rot(c):
                 Racc = np.eye(3)
                 since_clear = 0
                 mats.append(None)
+            elif o["op"] == "bad":
+                prev = rot.field
+                st_b, _ = attempt(lambda: call_bad(rot, o))
+                mats.append(step_matrix(o["base"]) if o["why"] == "n0" else None)
+                if st_b == "ok":
+                    rec["oracle"].append("malformed-rotation-accepted")
+                    rec.update(obs=dict(accepted_bad=o["why"]), key=f"{c['kind']}/bad-accepted/{o['why']}",
+                               size=len(fc["vals"]) * 10 + len(c["ops"]), nontrivial=True)
+                    return rec
+                if rot.field is not prev:
+                    rec["oracle"].append("refused-rotation-changed-state")
+                nbad += 1
             else:
                 M = step_matrix(o)
                 call_rotate(rot, o, c.get("style", True))
@@ -463,6 +546,25 @@ def run_rot(c):
     cscale = max(float(np.abs(pmin).max()), float(np.abs(pmax).max()), float((pmax - pmin).max()))
 
     # ---- oracle: the property text on the implementation's outputs
+    if nbad:
+        # as if the refused calls had not happened: a fresh rotator given only the accepted calls
+        def replay():
+            r2 = df.FieldRotator(build(fc))
+            for o in c["ops"]:
+                if o["op"] == "clear":
+                    r2.clear_rotation()
+                elif o["op"] == "rot":
+                    call_rotate(r2, o, c.get("style", True))
+            return r2.field
+        st_r, ref = attempt(replay)
+        if st_r == "ok":
+            ra = np.asarray(ref.array, dtype=float)
+            if ([int(x) for x in ref.mesh.n] != on or ra.shape != oarr.shape
+                    or np.abs(np.asarray(ref.mesh.region.pmin) - opmin).max() > 1e-12 * max(1e-300, float(np.abs(opmin).max()))
+                    or np.abs(np.asarray(ref.mesh.region.pmax) - opmax).max() > 1e-12 * max(1e-300, float(np.abs(opmax).max()))
+                    or np.abs(ra - oarr).max() > 1e-12 * max(float(np.abs(ra).max()), 1e-300)):
+                rec["oracle"].append("refused-rotation-changed-state")
+    rec["nbad"] = nbad
     if not np.array_equal(f.array, before):
         rec["oracle"].append("original-field-modified")
     if since_clear == 0:
@@ -547,13 +649,17 @@ def run_rot(c):
     for o, M in zip(c["ops"], mats):
         if o["op"] == "clear":
             ops_coq.append("OClear")
+        elif o["op"] == "bad":
+            # an explicit n with a zero is a rotation request the model itself refuses; everything else does
+            # not form a request
+            ops_coq.append(f"ORot {qm(M)} (Some (N3 0%nat 1%nat 1%nat))" if o["why"] == "n0" else "ORefused")
         else:
             ne = o.get("n")
             ops_coq.append(f"ORot {qm(M)} " + ("None" if ne is None else f"(Some {qn3(ne)})"))
     if not c.get("nocoq") and math.prod(on) * nv <= COQ_MAX_VALUES:
         rec["coq"] = (f"CRot {qv(pmin)} {qv(pmax)} {qn3(n)} {g.nat(nv)} {g.nl(perm)} {g.ql(A.reshape(-1))} "
                       f"{g.lst(ops_coq)} {qn3(on)} {qv(opmin)} {qv(opmax)} {g.ql(oarr.reshape(-1))}")
-    methods = tuple(o.get("method", "clear") for o in c["ops"])
+    methods = tuple(o.get("method", "bad:" + o["why"] if o["op"] == "bad" else "clear") for o in c["ops"])
     rec.update(obs=obs, size=len(fc["vals"]) * 10 + len(c["ops"]),
                key=f"{c['kind']}/{nv}/{fc['data']}/{methods}/{tuple(perm)}/{tuple(n)}/{last_n is not None}/{c.get('sp')}/{before.dtype}",
                nontrivial=True)
@@ -693,6 +799,7 @@ def stats(records):
             out.setdefault("complex", []).append(r.get("obs"))
             continue
         out["rot_cases"] += 1
+        out["refused_calls"] = out.get("refused_calls", 0) + r.get("nbad", 0)
         dts = out.setdefault("dtypes", {})
         dts[c["field"].get("dtype", "float64")] = dts.get(c["field"].get("dtype", "float64"), 0) + 1
         out["oracle_only"] = out.get("oracle_only", 0) + int(r.get("coq") is None)
@@ -702,6 +809,6 @@ def stats(records):
         out["explicit_n"] += int(any(o.get("n") for o in c["ops"]))
         out["permuted_mapping"] += int(c["field"].get("vmap") not in (None, [0, 1, 2]))
         for o in c["ops"]:
-            m = o.get("method", "clear")
+            m = o.get("method", "refused" if o["op"] == "bad" else "clear")
             out["methods"][m] = out["methods"].get(m, 0) + 1
     return out
